@@ -325,7 +325,11 @@ func entryCoq(e state.VerifC12Entry) string {
 		}
 		return "EResetObject " + a + " " + acctCoq(p.Nonce, p.Balance, p.Size, p.Code, sl, p.Suicided, p.Deleted)
 	case "suicideChange":
-		return fmt.Sprintf("ESuicide %s %s %s None", a, hlib.CoqBool(e.PrevBool), coqZ(e.PrevBig))
+		ps := "None"
+		if e.PrevSize != nil {
+			ps = "(Some " + coqZ(e.PrevSize) + ")"
+		}
+		return fmt.Sprintf("ESuicide %s %s %s %s", a, hlib.CoqBool(e.PrevBool), coqZ(e.PrevBig), ps)
 	case "balanceChange":
 		return fmt.Sprintf("EBalance %s %s", a, coqZ(e.PrevBig))
 	case "nonceChange":
@@ -652,25 +656,33 @@ func runHistory(s *state.StateDB, h []Op) (*runResult, []failure) {
 						}
 						_ = sid
 					}
-					want := dirtMap(si.at)
-					strict := fmt.Sprint(want) == fmt.Sprint(dirtMap(after))
+					norm := func(m map[string]int) map[string]int {
+						for a, n := range m {
+							if n == 0 {
+								delete(m, a)
+							}
+						}
+						return m
+					}
+					strictWant := dirtMap(si.at)
+					strictWant[hex.EncodeToString(addrs[2][:])] += si.ripemd
+					strictWant = norm(strictWant)
+					leakWant := dirtMap(si.at)
+					leakWant[hex.EncodeToString(addrs[2][:])] += si.ripemd
 					leaked := false
 					for a, n := range si.sizeLeak {
-						want[a] += n
+						leakWant[a] += n
 						leaked = leaked || n > 0
 					}
-					want[hex.EncodeToString(addrs[2][:])] += si.ripemd
+					leakWant = norm(leakWant)
 					got := dirtMap(after)
-					for a, n := range want {
-						if n == 0 {
-							delete(want, a)
-						}
-					}
-					if fmt.Sprint(want) != fmt.Sprint(got) {
-						fails = append(fails, failure{"revert-restores/dirties", fmt.Sprintf("journal.dirties after revert %v, expected %v", got, want)})
-					} else if !strict && leaked {
+					switch {
+					case fmt.Sprint(got) == fmt.Sprint(strictWant):
+					case leaked && fmt.Sprint(got) == fmt.Sprint(leakWant):
 						res.sizeLeak = true
 						fails = append(fails, failure{"sizechange-rejournal/dirties", fmt.Sprintf("journal.dirties after revert %v, at the snapshot %v: sizeChange.revert re-journals through SetSize", got, dirtMap(si.at))})
+					default:
+						fails = append(fails, failure{"revert-restores/dirties", fmt.Sprintf("journal.dirties after revert %v, expected %v", got, strictWant)})
 					}
 					// erase the region
 					kept = kept[:keptAt[id]]
@@ -1053,7 +1065,7 @@ func main() {
 		n := exhaustive(c, al, 2, []int{0, 1, 2, 3, 4, 5}, 32, rng.Fork())
 		m := 0
 		sr := rng.Fork()
-		for ; m < 1500; m++ { // sampled depth-3 histories
+		for ; m < 1000; m++ { // sampled depth-3 histories
 			cur := []Op{al[sr.Intn(len(al))], al[sr.Intn(len(al))], al[sr.Intn(len(al))]}
 			split := sr.Intn(3)
 			h := append(append(append(append([]Op{}, cur[:split]...), snap()), cur[split:]...), rev(0))
